@@ -678,6 +678,23 @@ fn gen_fun_weighted(rng: &mut Rng, complex: bool, w: Weight) -> Fun {
         Weight::Hermite => (49, (-2.5, 2.5), (0.1, 4.0)),
         Weight::Cheb1 | Weight::Cheb2 => (60, (-6.0, 6.0), (0.1, 8.0)),
     };
+    if matches!(w, Weight::Cheb1 | Weight::Cheb2) && rng.chance(0.3) {
+        // dense expansion in the weight's own orthogonal basis, degree up to (and slightly beyond)
+        // 195 = the highest degree the last three of the 100 tabulated rules integrate exactly:
+        // the n-point rule is wrong by O(1) until 2n exceeds the degree, so the routine must walk
+        // to rule floor(deg/2)+3
+        let top = rng.chance(0.4);
+        let deg = if top { 186 + rng.below(12) } else { rng.below(186) };
+        let rho = if rng.bool() { 1.0 } else { rng.r(0.97, 1.0) };
+        fun.cheb_kind = if w == Weight::Cheb1 { 1 } else { 2 };
+        fun.cheb = (0..=deg).map(|k| rc(rng, complex) * rho.powi(k as i32)).collect();
+        if let Some(l) = fun.cheb.last_mut() {
+            if l.norm() < 0.2 {
+                *l = C::new(0.5, if complex { -0.4 } else { 0.0 });
+            }
+        }
+        return fun;
+    }
     let u = rng.f();
     let kind = if u < 0.4 {
         0
@@ -949,6 +966,12 @@ fn run_weighted(rep: &mut Report, rt: Rt, fun: &Fun, tol: f64) {
         }
         if tol < 1e-8 {
             rep.count(&format!("{}/in_class_tol_below_1e-8", name), 1);
+        }
+        if m >= 98 {
+            rep.count(&format!("{}/in_class_certain_stop_at_rule_98_to_100", name), 1);
+        }
+        if m == 100 {
+            rep.count(&format!("{}/in_class_certain_stop_at_last_rule", name), 1);
         }
     }
     let nontrivial = obs.calls >= 6;
@@ -1405,6 +1428,9 @@ pub fn thresholds(ctx: &Ctx, rep: &Report) -> Vec<Threshold> {
     }
     for k in ERR_KINDS {
         need(format!("Err-expected calls of kind {}", k), 500.0, format!("err_expected/{}", k));
+    }
+    for name in ["chebyshev", "chebyshev2"] {
+        need(format!("{}: in-class cases (dense Chebyshev-basis polynomials) whose certain stop is the last tabulated rule", name), 200.0, format!("{}/in_class_certain_stop_at_last_rule", name));
     }
     need("tanh-sinh in-class cases in the tolerance-proportional band (tol >= 1e-8)".into(), 4000.0, "tanhsinh/in_class_proportional_band".into());
     need("tanh-sinh in-class cases in the sqrt band (1e-11 <= tol < 1e-8)".into(), 2000.0, "tanhsinh/in_class_sqrt_band".into());
